@@ -32,6 +32,8 @@ type Outcome struct {
 	Steps int
 	// Trace is a decoded, human-readable description of the run.
 	Trace func() any
+
+	schedule []string
 }
 
 // Stats accumulates counters over a batch of runs (one worker process).
